@@ -164,6 +164,13 @@ def chain_history(app, n, names=None, variant=0, intro_at=None, g2_evolutions=()
                 muts.append(mu(k='Chg', m=m, f=prev, attrs={'max_length': 40 + i}))
             else:
                 muts.append(mu(k='Chg', m=m, f=prev, attrs={'db_index': True}))
+        if variant == 4 and m == g1:
+            # the column `name` is deleted by evolution 1 and comes back, with the very same
+            # definition, in evolution 2: applied together or one after the other, it starts over
+            if i == 1:
+                muts.append(mu(k='Del', m=m, f='f'))
+            elif i == 2:
+                muts.append(mu(k='Add', m=m, f='f', ftype='Char', attrs={'max_length': 20}, init='i'))
         last[m] = ('f%d' % i, is_char)
         evolutions.append({'label': 'e%d' % i, 'mutations': muts})
         if intro_at == i:
